@@ -155,6 +155,37 @@ def h_optima_qtt_values(ctx, q):
                                                                ctx.eq(y_max, F[tuple(i_max)])]))
 
 
+def h_concrete_pruned(ctx):
+    """Clauses that hold for EVERY candidate count on inputs where pruning bites
+    (real code, fixed inputs: the searches on derived tensors are not encodable):
+    a fibre of moderate entries with a large slice norm plus an isolated spike,
+    and quantised search under a lossy conversion."""
+    ok_b = ok_v = ok_o = True
+    for sgn in (1., -1.):
+        for (n, spike) in [((5, 3, 5), 2.2), ((4, 4, 4), 1.7), ((6, 3, 4), 3.1)]:
+            F = np.zeros(n)
+            F[0, 0, :] = 1.
+            F[:, 0, 0] = 1.
+            F[1, 1, 1] = spike
+            Y = teneva.svd(F * sgn, 1e-12)
+            for k in (1, 2, 3):
+                i1, y1, i2, y2 = teneva.optima_tt(Y, k)
+                ok_b = ok_b and all(0 <= int(a) < b for a, b in zip(list(i1) + list(i2), n + n))
+                ok_v = ok_v and abs(y1 - teneva.get(Y, i1)) < 1e-9 and abs(y2 - teneva.get(Y, i2)) < 1e-9
+                ok_o = ok_o and y1 <= y2 + 1e-12
+    ctx.claim('pruned_indices_in_bounds', ok_b)
+    ctx.claim('pruned_values_are_entries', ok_v)
+    ctx.claim('pruned_min_not_above_max', ok_o)
+    okq = True
+    for seed in range(4):
+        Y = teneva.rand([8, 8, 8], 3, seed=seed)
+        for (e, r) in [(1e-12, 100), (1e-12, 2), (1.0, 100)]:
+            i1, y1, i2, y2 = teneva.optima_qtt(Y, 5, e, r)
+            okq = okq and abs(y1 - teneva.get(Y, i1)) < 1e-9 and abs(y2 - teneva.get(Y, i2)) < 1e-9
+            okq = okq and all(0 <= int(a) < 8 for a in list(i1) + list(i2)) and y1 <= y2 + 1e-12
+    ctx.claim('quantised_values_are_entries_of_the_original', okq)
+
+
 def instances(tier):
     out = []
     quick = tier == 'quick'
@@ -163,6 +194,7 @@ def instances(tier):
                         [([2, 2], 1, 1, False), ([2, 2], 2, 4, True), ([2, 2], 2, 4, False), ([2, 2], 2, 1, False),
                          ([2, 3], 2, 6, False), ([2, 2, 2], 1, 1, False), ([2, 2, 2], 1, 2, False)]):
         out.append({'func': 'h_beam', 'params': {'n': n, 'r': r, 'k': k, 'fixed_q': fq}, 'opts': G})
+    out.append({'func': 'h_concrete_pruned', 'params': {}, 'opts': {'concrete_only': True}})
     out.append({'func': 'h_optima_tt_order', 'params': {'n': [2, 2], 'r': 1}, 'opts': {'symbolic_signs': False}})
     out.append({'func': 'h_optima_qtt_values', 'params': {'q': 1}, 'opts': {'symbolic_signs': False}})
     if not quick:
